@@ -401,14 +401,39 @@ func ruleIndexArms(r *Report) {
 				})
 			}
 			rt, rf := under(true), under(false)
+			// an effect inside a helper (assign(idx, matched)): additionally reachable inside the
+			// helper, whose parameters read as the arguments of the call
+			inHelper := func(e Effect, pred bool) bool {
+				if !e.Inlined || e.H == nil || e.hBlock == nil {
+					return true
+				}
+				reach := reachableUnder(e.H.fn, func(v ssa.Value) (bool, bool) {
+					if k, eq, ok := typeTest(v); ok {
+						return (k == opPut) == eq, true
+					}
+					if par, isPar := v.(*ssa.Parameter); isPar && e.Bind != nil {
+						if a := e.Bind(par); a != nil {
+							a = norm(a)
+							if a == ssa.Value(cb) {
+								return pred, true
+							}
+							if c, isC := a.(*ssa.Const); isC && c.Value != nil && (c.Value.String() == "true" || c.Value.String() == "false") {
+								return c.Value.String() == "true", true
+							}
+						}
+					}
+					return false, false
+				})
+				return reach[e.hBlock]
+			}
 			guard = true
 			for _, e := range sets {
-				if !rt[e.Ins.Block()] || rf[e.Ins.Block()] {
+				if !(rt[e.Ins.Block()] && inHelper(e, true)) || (rf[e.Ins.Block()] && inHelper(e, false)) {
 					guard = false
 				}
 			}
 			for _, e := range clears {
-				if !rf[e.Ins.Block()] || rt[e.Ins.Block()] {
+				if !(rf[e.Ins.Block()] && inHelper(e, false)) || (rt[e.Ins.Block()] && inHelper(e, true)) {
 					guard = false
 				}
 			}
